@@ -96,6 +96,7 @@ type DADouble struct {
 	byHeight map[uint64][][]byte
 	ids      map[string][]byte
 	calls    []DACall
+	ctxDone  map[uint64]int
 	subScr   []SubmitOutcome
 	defSub   SubmitOutcome // outcome when the script is exhausted ("" = accept)
 	retScr   map[uint64][]RetrieveOutcome
@@ -285,6 +286,13 @@ func (d *DADouble) AllBlobs() map[uint64][][]byte {
 }
 
 // Calls returns a copy of the call log.
+// CtxDoneGets returns how many chunk fetches for a DA height arrived with a context that was already over.
+func (d *DADouble) CtxDoneGets(height uint64) int {
+	d.mu.Lock()
+	defer d.mu.Unlock()
+	return d.ctxDone[height]
+}
+
 func (d *DADouble) Calls() []DACall {
 	d.mu.Lock()
 	defer d.mu.Unlock()
@@ -547,6 +555,17 @@ func (d *DADouble) Get(ctx context.Context, ids []coreda.ID, namespace []byte) (
 		height = binary.LittleEndian.Uint64(ids[0])
 	}
 	call := DACall{Seq: len(d.calls), Kind: "get", Height: height, NIDs: len(ids), Outcome: "ok"}
+	if err := ctx.Err(); err != nil {
+		// like every client that hands the caller's context to a network call: a context that is already over gets no answer
+		call.Outcome = "ctxdone"
+		if d.ctxDone == nil {
+			d.ctxDone = map[uint64]int{}
+		}
+		d.ctxDone[height]++
+		call.Err = err.Error()
+		d.calls = append(d.calls, call)
+		return nil, err
+	}
 	idx := d.getCount[height]
 	d.getCount[height]++
 	if s := d.retScr[height]; len(s) > 0 && s[0].Kind == "chunkerr" {
